@@ -128,6 +128,12 @@ func idpreqBuildMetadata(entityID string, reg [][]idpreqEP, ex *idpreqExtras) (*
 		desc := saml.SPSSODescriptor{SSODescriptor: saml.SSODescriptor{RoleDescriptor: saml.RoleDescriptor{ProtocolSupportEnumeration: nsProtocol}}}
 		for _, e := range eps {
 			ie := saml.IndexedEndpoint{Binding: idpreqBinding[e.B], Location: idpreqLoc[e.Loc], Index: e.Idx}
+			// every other endpoint also carries the optional ResponseLocation attribute of EndpointType,
+			// pointing elsewhere: responses go to Location - nothing may be routed to this one
+			if (e.Idx+d)%2 == 1 {
+				rl := "https://elsewhere.example.net/response-location"
+				ie.ResponseLocation = &rl
+			}
 			switch e.Def {
 			case "true":
 				t := true
